@@ -5,6 +5,7 @@ package main
 
 import (
 	"bytes"
+	"encoding/binary"
 	"fmt"
 	"time"
 
@@ -15,6 +16,7 @@ import (
 	"gitlab.com/yawning/obfs4.git/internal/zzverif/sched"
 	"gitlab.com/yawning/obfs4.git/internal/zzverif/wire"
 	"gitlab.com/yawning/obfs4.git/transports/base"
+	"gitlab.com/yawning/obfs4.git/transports/obfs4"
 )
 
 func fail(c *mc.Ctx, oracle, key, format string, a ...any) {
@@ -41,6 +43,15 @@ type verdict struct {
 // submit sends b on a fresh connection to sf and reports what happened.  It
 // must be called from a scheduled thread.
 func submit(sf base.ServerFactory, br *o4h.Bridge, b *blob, tag string) verdict {
+	return submitT(sf, br, b, tag, false)
+}
+
+// traffic: an accepted connection is used before it is closed -- the client
+// sends exactly as many bytes again as its handshake had (the server reads them into
+// the buffers the handshake was parsed from).
+var trafficSeen int64
+
+func submitT(sf base.ServerFactory, br *o4h.Bridge, b *blob, tag string, traffic bool) verdict {
 	var v verdict
 	s := sched.Cur()
 	cw, sw := wire.Pipe("client"+tag, "server"+tag)
@@ -49,6 +60,16 @@ func submit(sf base.ServerFactory, br *o4h.Bridge, b *blob, tag string) verdict 
 		conn, err := sf.WrapConn(sw)
 		v.accepted = err == nil
 		if err == nil {
+			if traffic {
+				// (the bytes are not valid frames: Read consumes them and fails)
+				tmp := make([]byte, 4096)
+				for {
+					if _, rerr := conn.Read(tmp); rerr != nil {
+						break
+					}
+				}
+				trafficSeen += sw.In.Read
+			}
 			conn.Close()
 		}
 		done = true
@@ -71,6 +92,20 @@ func submit(sf base.ServerFactory, br *o4h.Bridge, b *blob, tag string) verdict 
 					v.detail = "AUTH mismatch"
 				}
 				_ = used
+				if traffic {
+					junk := make([]byte, len(b.bytes)) // (no longer: the buffer the handshake sat in is reused as it is)
+					for i := range junk {
+						junk[i] = byte(i*13 + 5)
+					}
+					cw.Write(junk)
+					cw.CloseWrite()
+					cw.SetReadDeadline(time.Time{})
+					for {
+						if _, rerr := cw.Read(tmp); rerr != nil {
+							break
+						}
+					}
+				}
 				break
 			}
 			if perr != ref.ErrNeedMore {
@@ -122,9 +157,15 @@ func check(c *mc.Ctx, b *blob, v verdict, what string, now time.Time) {
 
 var advances = []time.Duration{59 * time.Minute, time.Hour, 2 * time.Hour, 3*time.Hour + time.Second}
 
-func historyScenario(depth int, seed int64) mc.Scenario {
+func historyScenario(depth int, seed int64) mc.Scenario { return historyScenarioT(depth, seed, false) }
+
+func historyScenarioT(depth int, seed int64, traffic bool) mc.Scenario {
+	name := "histories"
+	if traffic {
+		name = "histories-with-traffic"
+	}
 	return mc.Scenario{
-		Name:   fmt.Sprintf("histories/depth=%d", depth),
+		Name:   fmt.Sprintf("%s/depth=%d", name, depth),
 		Params: map[string]any{"depth": depth, "alphabet": "fresh(h=-3..+3) | replay(i) | advance(59m,1h,2h,3h+1s)"},
 		Weight: 1000,
 		Run: func(c *mc.Ctx) {
@@ -149,7 +190,7 @@ func historyScenario(depth int, seed int64) mc.Scenario {
 						b := newBlob(br, r, h, fmt.Sprintf("b%d", len(blobs)))
 						blobs = append(blobs, b)
 						hist = append(hist, fmt.Sprintf("fresh(%+d)", h))
-						v := submit(sf, br, b, fmt.Sprint(step))
+						v := submitT(sf, br, b, fmt.Sprint(step), traffic)
 						check(c, b, v, fmt.Sprintf("step %d of %v", step, hist), s.Now())
 					case op < 7+len(advances):
 						d := advances[op-7]
@@ -158,7 +199,7 @@ func historyScenario(depth int, seed int64) mc.Scenario {
 					default:
 						b := blobs[op-7-len(advances)]
 						hist = append(hist, fmt.Sprintf("replay(%s)", b.label))
-						v := submit(sf, br, b, fmt.Sprint(step))
+						v := submitT(sf, br, b, fmt.Sprint(step), traffic)
 						check(c, b, v, fmt.Sprintf("step %d of %v", step, hist), s.Now())
 					}
 					if c.Failed() {
@@ -277,6 +318,48 @@ func concScenarioKinds(name string, same int, others int, bound int, early bool,
 	}
 }
 
+// nearlyFullScenario: the bridge remembers 102399 handshakes (fewer than
+// 102400, so the statement applies), the oldest being a genuine one; its replay
+// is refused, and fresh handshakes keep being accepted.
+func nearlyFullScenario(seed int64) mc.Scenario {
+	return mc.Scenario{Name: "nearly-full-filter/replay-of-the-oldest", Weight: 50, Run: func(c *mc.Ctx) {
+		br := o4h.NewBridge(seed, "c04", 0, false)
+		rnd.Install(rnd.New(seed, "c04-real"))
+		r := rnd.New(seed, "c04-ref")
+		sf, err := br.ServerFactory()
+		if err != nil {
+			fail(c, "setup", "setup", "%v", err)
+			return
+		}
+		f := obfs4.VerifReplayFilter(sf)
+		if f == nil {
+			c.Count("filter_not_reachable", 1)
+			c.Trivial()
+			return
+		}
+		res := sched.Run(c, sched.Options{NoPreempt: true, NoEarlyTimers: true, Start: start, MaxSteps: 3_000_000}, func() {
+			s := sched.Cur()
+			b0 := newBlob(br, r, 0, "b0")
+			check(c, b0, submit(sf, br, b0, "0"), "first handshake of the bridge", s.Now())
+			var v [16]byte
+			for i := 0; i < 102400-2; i++ {
+				binary.BigEndian.PutUint64(v[:], uint64(i)+1)
+				if f.TestAndSet(s.Now(), v[:]) {
+					fail(c, "setup", "setup", "filler value %d reported as seen", i)
+					return
+				}
+			}
+			s.Advance(time.Second)
+			check(c, b0, submit(sf, br, b0, "1"), "replay of the oldest of 102399 remembered handshakes", s.Now())
+			b1 := newBlob(br, r, 0, "b1")
+			check(c, b1, submit(sf, br, b1, "2"), "fresh handshake on a bridge remembering 102399", s.Now())
+		})
+		if len(res.Panics) > 0 {
+			fail(c, "no-panic", "panic", "%s", res.Panics[0])
+		}
+	}}
+}
+
 func main() {
 	mc.Main("C04", func(cfg *mc.Config, emit func(mc.Scenario)) {
 		d := 3
@@ -288,6 +371,13 @@ func main() {
 		for k := 1; k <= d; k++ {
 			emit(historyScenario(k, cfg.Seed))
 		}
+		// the same histories with every accepted connection carrying traffic
+		// before it is closed (what the server remembers of a handshake must not
+		// live in buffers the connection goes on to use)
+		for k := 2; k <= d; k++ {
+			emit(historyScenarioT(k, cfg.Seed, true))
+		}
+		emit(nearlyFullScenario(cfg.Seed))
 		// preemption at every statement of the server handshake functions as
 		// well (state shared between the in-flight handshakes of one factory)
 		emit(concScenarioKinds("concurrent-hs-stmt/2-same", 2, 0, 1, false, []string{"stmt", "lock"}, cfg.Seed))
